@@ -3,6 +3,7 @@ let () =
   match Sys.argv with
   | [| _; "c03" |] -> C03.run ()
   | [| _; "c15" |] -> C15.run ()
+  | [| _; "ble" |] -> Ble.run ()
   | [| _; "script"; f |] -> Script.run f
   | [| _; "judge"; f; o |] -> Judge.run f o
   | [| _; "api"; f; o |] -> Api.run f o
